@@ -3,8 +3,11 @@ package engine
 import (
 	"github.com/nyaruka/gocommon/jsonx"
 	"github.com/nyaruka/goflow/assets"
+	"github.com/nyaruka/goflow/envs"
 	"github.com/nyaruka/goflow/flows"
 	"github.com/nyaruka/goflow/flows/actions"
+	"github.com/nyaruka/goflow/flows/definition"
+	"github.com/nyaruka/goflow/flows/triggers"
 	"github.com/nyaruka/goflow/zzverif"
 	"time"
 )
@@ -152,6 +155,64 @@ func VerifC02_Values() {
 	verifLazyOutcomes = false
 	verifOutcomes, verifOutcomePos = verifOutcomeRecord, 0
 	sp2, err2 := restored.Resume(verifResume(kind))
+	zzverif.Assert(err1 == nil && err2 == nil, "resume failed")
+	zzverif.Assert(verifEventsJSON(sp1) == verifEventsJSON(sp2), "resuming the restored session produced different events or segments")
+	zzverif.Assert(verifMarshal(sess) == verifMarshal(restored), "resuming the restored session resulted in different session JSON")
+	zzverif.Cover("resumed-equal")
+}
+
+// VerifC02_ResultTexts: every text of a saved run result comes from somewhere
+// with its own rules — the category's translation from the flow's
+// localization (free text), the category from the action, the value from an
+// evaluated template — and the persisted form must take all of them back: a
+// result whose localized category is an arbitrary ASCII character followed by
+// x (line breaks, quotes, control characters) or is longer than any category
+// name may be, saved before a wait, survives marshal -> read -> marshal and
+// resumes identically.
+// cover: restored-equal, resumed-equal, long-translation, short-translation, line-break
+func VerifC02_ResultTexts() {
+	var tr string
+	if zzverif.Choice("translation-kind", 2) == 0 {
+		b := zzverif.Byte("translation")
+		zzverif.Assume(b != 0 && b < 0x80 && b != '@')
+		if b == '\n' {
+			zzverif.Cover("line-break")
+		}
+		tr = string([]byte{b}) + "x"
+		zzverif.Cover("short-translation")
+	} else {
+		tr = "una categoria con un nombre muy muy largo" // 41 characters
+		zzverif.Cover("long-translation")
+	}
+	sa := verifNewAssets()
+	loc := definition.NewLocalization()
+	loc.SetItemTranslation("spa", "r1", "category", []string{tr})
+	first := verifPlainNodeWithActions(0, 0, 1, actions.NewSetRunResult("r1", "Answer", "yes", "Cat"))
+	wait := verifBuildNode(0, 1, verifNodeSpec{kind: vkWaitTO, dests: [3]int{-1, -1, -1}, hasDef: true})
+	f0, err := definition.NewFlow(verifFlowUUID(0), "F0", "eng", flows.FlowTypeMessaging, 1, 10, loc, []flows.Node{first, wait}, nil, nil)
+	zzverif.Assert(err == nil, "setup: flow did not validate")
+	sa.add(f0)
+	verifLazyOutcomes = true
+	eng := verifEngine(10, 10)
+	env := envs.NewBuilder().WithAllowedLanguages("eng", "spa").Build()
+	contact := flows.NewEmptyContact(sa, "Bob", "spa", nil)
+	zzverif.ResetEnv()
+	sess, _, err := eng.NewSession(sa, triggers.NewBuilder(env, assets.NewFlowReference(verifFlowUUID(0), "F0"), contact).Manual().Build())
+	zzverif.Assert(err == nil && sess.Status() == flows.SessionStatusWaiting, "setup: session not waiting")
+	res := sess.Runs()[0].Results().Get("answer")
+	zzverif.Assert(res != nil && res.CategoryLocalized == tr, "setup: the result does not carry the translated category")
+	m := verifMarshal(sess)
+	restored, err := eng.ReadSession(sa, []byte(m), assets.PanicOnMissing)
+	zzverif.Assert(err == nil, "a marshalled waiting session could not be read back")
+	zzverif.Assert(verifMarshal(restored) == m, "a session read back from its JSON marshals to different JSON")
+	zzverif.Cover("restored-equal")
+	zzverif.ResetEnv()
+	verifOutcomeRecord = nil
+	sp1, err1 := sess.Resume(verifResume(1))
+	zzverif.ResetEnv()
+	verifLazyOutcomes = false
+	verifOutcomes, verifOutcomePos = verifOutcomeRecord, 0
+	sp2, err2 := restored.Resume(verifResume(1))
 	zzverif.Assert(err1 == nil && err2 == nil, "resume failed")
 	zzverif.Assert(verifEventsJSON(sp1) == verifEventsJSON(sp2), "resuming the restored session produced different events or segments")
 	zzverif.Assert(verifMarshal(sess) == verifMarshal(restored), "resuming the restored session resulted in different session JSON")
